@@ -9,9 +9,9 @@ CONSTANTS
   MaxEmit = 3
   MaxHandles = 2
   CoroMode = TRUE
-  Hooked = {}
-  RegEmit = 0
-  Strict = TRUE
+  Hooked = {l1}
+  RegEmit = 2
+  Strict = FALSE
 INVARIANTS TypeOK ChainWellFormed CurValid AllWaitingGetIt OncePerEmit NoDanglingRead ReAwaitMissesNone DisconnectWakesAll CallbackAnswers NoStuckState
 PROPERTIES DisconnectPromisesCancel AwaitDisconnectedFails CallbacksFreed
 CHECK_DEADLOCK FALSE
